@@ -85,19 +85,23 @@ func csameVec[T cnum](got []T, want []int64, e int) (int, bool) {
 	return 0, true
 }
 
-type cenv struct {
-	x, y, dst []complex128
-	a         complex128
-	outv      []complex128
-	outs      complex128
+type cenvT[T cnum] struct {
+	x, y, dst []T
+	a         T
+	outv      []T
+	outs      T
 }
 
-type cvbind struct {
+type cenv = cenvT[complex128]
+
+type cvbindT[T cnum] struct {
 	name  string
 	where string
 	alias []string
-	call  func(e *cenv)
+	call  func(e *cenvT[T])
 }
+
+type cvbind = cvbindT[complex128]
 
 var cvec = map[string][]cvbind{
 	"CAdd":         {{"cmplxs.Add", "x", nil, func(e *cenv) { cmplxs.Add(e.x, e.y) }}},
@@ -121,24 +125,42 @@ var cvec = map[string][]cvbind{
 	"CCumProd":     {{"cmplxs.CumProd", "dst", []string{"x"}, func(e *cenv) { e.outv = cmplxs.CumProd(e.dst, e.x) }}},
 }
 
-var cscal = map[string]struct {
+type csbindT[T cnum] struct {
 	name string
-	call func(e *cenv)
-}{
-	"CSum":  {"cmplxs.Sum", func(e *cenv) { e.outs = cmplxs.Sum(e.x) }},
-	"CProd": {"cmplxs.Prod", func(e *cenv) { e.outs = cmplxs.Prod(e.x) }},
-	"CDot":  {"cmplxs.Dot", func(e *cenv) { e.outs = cmplxs.Dot(e.x, e.y) }},
+	call func(e *cenvT[T])
 }
 
-func runComplex(r *runner, c *pcase) {
-	if b, ok := cvec[c.F]; ok {
-		runCVec(r, c, b)
-	}
-	if b, ok := cscal[c.F]; ok && want(c, b.name, "") {
+var cscal = map[string][]csbindT[complex128]{
+	"CSum":  {{"cmplxs.Sum", func(e *cenv) { e.outs = cmplxs.Sum(e.x) }}},
+	"CProd": {{"cmplxs.Prod", func(e *cenv) { e.outs = cmplxs.Prod(e.x) }}},
+	"CDot":  {{"cmplxs.Dot", func(e *cenv) { e.outs = cmplxs.Dot(e.x, e.y) }}},
+}
+
+// isoCall names the configurations that fault in the assembly build (out-of-bounds loop, the process
+// dies): they are not executed here but one at a time in a process of their own (replay argument
+// "iso", see tools/props/C08.py), where the death of the process is the observation.
+//
+//	c64.AxpyUnitaryTo, one element, y not 16-byte aligned: after the alignment step the remaining
+//	count is 0 and the kernel enters its do-while tail loop.
+func isoCall[T cnum](name string, x, y []T) bool {
+	return name == "c64.AxpyUnitaryTo" && len(x) == 1 && len(y) == 1 && uintptr(unsafe.Pointer(&y[0]))%16 != 0
+}
+
+// coff maps the offset sweep 0..7 onto the elements of one 64-byte line of T
+func coff[T cnum](off int) int {
+	var z T
+	return off % (64 / int(unsafe.Sizeof(z)))
+}
+
+func runCScal[T cnum](r *runner, c *pcase, binds []csbindT[T]) {
+	for _, b := range binds {
+		if !want(c, b.name, "") {
+			continue
+		}
 		for _, off := range r.offsets(c) {
-			bx := cplace(cdecv[complex128](c.X, 0), off%4)
-			by := cplace(cdecv[complex128](c.Y, 0), yoff(off)%4)
-			en := &cenv{x: bx.view, y: by.view}
+			bx := cplace(cdecv[T](c.X, 0), coff[T](off))
+			by := cplace(cdecv[T](c.Y, 0), coff[T](yoff(off)))
+			en := &cenvT[T]{x: bx.view, y: by.view}
 			o := core.Call(func() { b.call(en) })
 			r.count(c, b.name)
 			bad := ""
@@ -162,6 +184,21 @@ func runComplex(r *runner, c *pcase) {
 			}
 		}
 	}
+}
+
+func runComplex(r *runner, c *pcase) {
+	if b, ok := cvec[c.F]; ok {
+		runCVecT(r, c, b)
+	}
+	if b, ok := cvec64[c.F]; ok {
+		runCVecT(r, c, b)
+	}
+	if b, ok := cscal[c.F]; ok {
+		runCScal(r, c, b)
+	}
+	if b, ok := cscal64[c.F]; ok {
+		runCScal(r, c, b)
+	}
 	switch c.F {
 	case "CReal", "CImag", "CComplex", "CMaxAbsIdx", "CMinAbsIdx", "CNorm2":
 		runCMisc(r, c)
@@ -178,7 +215,7 @@ func (r *runner) count(c *pcase, name string) {
 	r.sum.Count("calls:"+name, 1)
 }
 
-func runCVec(r *runner, c *pcase, binds []cvbind) {
+func runCVecT[T cnum](r *runner, c *pcase, binds []cvbindT[T]) {
 	for _, b := range binds {
 		modes := []string{"fresh"}
 		if b.where != "dst" {
@@ -193,27 +230,31 @@ func runCVec(r *runner, c *pcase, binds []cvbind) {
 				continue
 			}
 			for _, off := range r.offsets(c) {
-				bx := cplace(cdecv[complex128](c.X, 0), off%4)
-				by := cplace(cdecv[complex128](c.Y, 0), yoff(off)%4)
-				var bd *cbuf[complex128]
-				en := &cenv{x: bx.view, y: by.view, a: complex(float64(c.A), float64(c.AI))}
-				var res []complex128
+				bx := cplace(cdecv[T](c.X, 0), coff[T](off))
+				by := cplace(cdecv[T](c.Y, 0), coff[T](yoff(off)))
+				var bd *cbuf[T]
+				en := &cenvT[T]{x: bx.view, y: by.view, a: T(complex(float64(c.A), float64(c.AI)))}
+				var res []T
 				switch {
 				case b.where == "x":
 					res = bx.view
 				case b.where == "y":
 					res = by.view
 				case mode == "fresh":
-					fill := make([]complex128, len(c.W)/2)
+					fill := make([]T, len(c.W)/2)
 					for i := range fill {
-						fill[i] = ccanary[complex128]()
+						fill[i] = ccanary[T]()
 					}
-					bd = cplace(fill, doff(off)%4)
+					bd = cplace(fill, coff[T](doff(off)))
 					en.dst, res = bd.view, bd.view
 				case mode[len(mode)-1] == 'x':
 					en.dst, res = bx.view, bx.view
 				default:
 					en.dst, res = by.view, by.view
+				}
+				if !r.iso && isoCall(b.name, en.x, en.y) {
+					r.sum.Count("deferred-to-isolated-process:"+b.name, 1)
+					continue
 				}
 				o := core.Call(func() { b.call(en) })
 				r.count(c, b.name)
